@@ -10,7 +10,7 @@ INFO = dict(
     bounds=dict(
         quick="requests: method of 1..4 symbolic token bytes, path '/' + 0..6 symbolic printable-ASCII bytes (no space ? #, not starting "
         "'//', ';' included), query from 8 concrete strings (percent-escapes, '+', empty values, repeated keys, bad escapes), 0..3 header "
-        "lines with symbolic keys (1..2 bytes, no CR/LF, no ': ') and values (0..2 bytes, no CR/LF), body of 0..12 fully symbolic bytes "
+        "lines with symbolic keys (1..2 bytes, no CR/LF, no ': ') and values (0..2 bytes, lone CR or LF allowed, no CR LF pair), body of 0..12 fully symbolic bytes "
         "(CR LF CR LF and NUL included); responses: status of 3 symbolic digits 100..599, reason token 1..3 symbolic bytes, same "
         "headers/body; malformed start lines: every first line of 0..7 symbolic bytes, also behind the prefixes 'HTTP/', 'HTTP/1.1 200 ' and 'GET / '",
         thorough="path up to 10 bytes, 4 header lines, body up to 24 bytes, first line up to 9 bytes",
@@ -72,12 +72,19 @@ def build_headers(ctx, n, klen, vlen):
     for i in range(n):
         k = sym_bytes("hk%d" % i, klen)
         v = sym_bytes("hv%d" % i, vlen)
-        for c in k.cells + v.cells:
+        for c in k.cells:
             if isinstance(c, int):
                 if c in (10, 13):
                     raise PathAbort()
             else:
                 ctx.assume(mkbool(z3.And(c != 10, c != 13)))
+        # values: a lone CR or a lone LF does not end a header line (only the CR LF pair does); the pair itself is excluded
+        for a, b in zip(v.cells, v.cells[1:]):
+            if isinstance(a, int) and isinstance(b, int):
+                if a == 13 and b == 10:
+                    raise PathAbort()
+            else:
+                ctx.assume(mkbool(z3.Not(z3.And(bv(a) == 13, bv(b) == 10))))
         # key does not contain ': '
         for a, b in zip(k.cells, k.cells[1:]):
             if isinstance(a, int):
